@@ -107,11 +107,12 @@ def preprocess(path, flags, text=None):
 
 
 class _LocState:
-    __slots__ = ('file', 'line')
+    __slots__ = ('file', 'line', 'tok')
 
     def __init__(self):
         self.file = None
         self.line = None
+        self.tok = None
 
 
 def _bare(st, d):
@@ -123,6 +124,7 @@ def _bare(st, d):
         st.line = d['line']
     if 'col' not in d and 'offset' not in d:
         return None
+    st.tok = (st.file, d.get('offset'), d.get('tokLen'))
     return (st.file, st.line, d.get('col'))
 
 
@@ -132,7 +134,9 @@ def _resolve_loc(st, d):
         return (None, None)
     if 'spellingLoc' in d or 'expansionLoc' in d:
         sp = _bare(st, d.get('spellingLoc'))
+        tok = st.tok
         ex = _bare(st, d.get('expansionLoc'))
+        st.tok = tok
         return (ex, sp)
     return (_bare(st, d), None)
 
@@ -149,6 +153,8 @@ def _walk_locs(node, st, keep_pred, depth=0):
     rng = node.get('range')
     if rng is not None:
         b, bs = _resolve_loc(st, rng.get('begin'))
+        if node.get('kind') == 'AtomicExpr':
+            node['_tok'] = st.tok
         e, _ = _resolve_loc(st, rng.get('end'))
         if '_loc' not in node or node['_loc'] is None:
             node['_loc'] = b
@@ -289,7 +295,7 @@ def dump_ast(path, flags=None, extra=(), text=None, config='', keep_pred=None, l
     pp = preprocess(path, flags, text=text)
     h = hashlib.sha256()
     h.update(pp)
-    h.update(('\0'.join(flags) + '|' + path + '|v5').encode())
+    h.update(('\0'.join(flags) + '|' + path + '|v6').encode())
     key = h.hexdigest()[:32]
     cfile = os.path.join(CACHE, 'ast-' + key + '.pkl')
     if os.path.exists(cfile):
@@ -618,3 +624,25 @@ def expr_text(node, depth=0):
         at = node.get('argType', {}).get('qualType')
         return node.get('name', 'sizeof') + '(' + (at if at else (expr_text(ks[0], depth + 1) if ks else '')) + ')'
     return k or '?'
+
+
+_SRC_CACHE = {}
+
+
+def token_at(tok):
+    """source text of the token (file, offset, length) recorded for a node"""
+    if not tok or tok[0] is None or tok[1] is None:
+        return None
+    f, off, ln = tok
+    if f not in _SRC_CACHE:
+        try:
+            with open(f, 'rb') as fh:
+                _SRC_CACHE[f] = fh.read()
+        except OSError:
+            return None
+    return _SRC_CACHE[f][off:off + (ln or 0)].decode('latin-1')
+
+
+def atomic_name(node):
+    """builtin name of an AtomicExpr (clang 14's JSON omits it): the token at its spelling location"""
+    return token_at(node.get('_tok'))
